@@ -53,6 +53,7 @@ type StressCfg struct {
 	Rounds     int            `json:"rounds,omitempty"`
 	Threads    [][]StressCall `json:"threads,omitempty"`
 	Clock      string         `json:"clock,omitempty"`
+	Quiet      bool           `json:"quiet,omitempty"` // mix: cache wrapper without counters (atomics can hide races)
 	Cases      []*HandoffCase `json:"cases,omitempty"` // mode "handoff"
 }
 
@@ -694,10 +695,10 @@ func Run(cfg *common.Config) (*common.Report, error) {
 	// the mix: expiring entries (cold start), then no expiry with a warm second round
 	plan = append(plan,
 		&StressCfg{Mode: "mix", Seed: r.Int63n(1 << 30), Goroutines: 16 + r.Intn(49), Ops: cfg.Pick(8, 20), TTLms: 1 + r.Intn(4), Rounds: 1},
-		&StressCfg{Mode: "mix", Seed: r.Int63n(1 << 30), Goroutines: 2 + r.Intn(15), Ops: cfg.Pick(10, 30), TTLms: 0, Rounds: 2})
+		&StressCfg{Mode: "mix", Seed: r.Int63n(1 << 30), Goroutines: 2 + r.Intn(15), Ops: cfg.Pick(10, 30), TTLms: 0, Rounds: 2, Quiet: true})
 	if cfg.Thorough() {
 		for i := 0; i < 14; i++ {
-			plan = append(plan, &StressCfg{Mode: "mix", Seed: r.Int63n(1 << 30), Goroutines: pickN(), Ops: 20, TTLms: []int{0, 1, 2, 5, 20, 100, 3}[i%7], Rounds: 1 + i%3})
+			plan = append(plan, &StressCfg{Mode: "mix", Seed: r.Int63n(1 << 30), Goroutines: pickN(), Ops: 20, TTLms: []int{0, 1, 2, 5, 20, 100, 3}[i%7], Rounds: 1 + i%3, Quiet: i%2 == 0})
 		}
 		for i := 0; i < 6; i++ {
 			plan = append(plan, &StressCfg{Mode: "cache", Seed: r.Int63n(1 << 30), Goroutines: pickN(), Ops: 3000, Clock: []string{"atomic", "mono"}[i%2]})
